@@ -398,6 +398,9 @@ impl Ctx {
     fn collect_faults(&mut self) -> Vec<verif::FaultEvent> {
         let ev = verif::take_events();
         for e in &ev {
+            if e.fired {
+                self.out.note(format!("fault fired: {} at key {}", e.site, e.key));
+            }
             self.out.count(&format!("reach.{}", e.site), 1);
             if e.fired {
                 self.out.count(&format!("fault.{}", e.site), 1);
@@ -455,6 +458,7 @@ fn exec_session(sc: &Session) -> RunOutcome {
     for (i, op) in sc.ops.iter().enumerate() {
         ctx.out.steps += 1;
         ctx.dg.u64(i as u64);
+        ctx.out.note(format!("op {i}: {op:?} (pool size {})", pool_v.len()));
         if sc.binary {
             session_binary_op(&mut ctx, sc, i, op, &mut pool_v, opts);
         } else {
